@@ -52,8 +52,8 @@ const (
 var (
 	quickSegs    = []string{"uatom", "transfer", "channel-0", "channel-1", "x"}
 	thoroughSegs = []string{"uatom", "transfer", "channel-0", "channel-1", "x", "07-tendermint-0", "channel-7"}
-	// identifiers chain A knows paths by
-	idsA = []string{"channel-0", "channel-1", "07-tendermint-0"}
+	// the prefix world: both chains own channel-1 and channel-10 (one identifier is a string prefix of the other)
+	prefixSegs = []string{"uatom", "transfer", "channel-1", "channel-10", "x"}
 
 	userA     = sdk.AccAddress([]byte("verif-c42-user-a-000"))
 	bystander = sdk.AccAddress([]byte("verif-c42-bystander0"))
@@ -68,10 +68,19 @@ var quickQuads = []string{
 	"transfer/channel-0/transfer/uatom", "channel-0/channel-1/channel-0/channel-1", "uatom/uatom/uatom/channel-0", "transfer/transfer/channel-1/x",
 }
 
-func family(c *core.C) []string {
-	segs, maxSeg := quickSegs, 3
+var quickPrefixQuads = []string{
+	"transfer/channel-10/transfer/channel-1", "transfer/channel-1/transfer/channel-10", "transfer/channel-10/uatom/x", "uatom/channel-10/x/uatom",
+	"transfer/channel-1/uatom/channel-10", "uatom/channel-1/channel-10/uatom",
+}
+
+// family lists the paths of a world kind.
+func family(c *core.C, kind string) []string {
+	segs, maxSeg, extra := quickSegs, 3, quickQuads
 	if !c.Quick() {
 		segs, maxSeg = thoroughSegs, 4
+	}
+	if kind == "prefix" {
+		segs, extra = prefixSegs, quickPrefixQuads
 	}
 	var out []string
 	for n := 1; n <= maxSeg; n++ {
@@ -89,7 +98,7 @@ func family(c *core.C) []string {
 		})
 	}
 	if c.Quick() {
-		out = append(out, quickQuads...)
+		out = append(out, extra...)
 	}
 	return out
 }
@@ -102,7 +111,7 @@ func voucherOf(path string) string {
 // candidateCoins lists, for the whole family, every coin ICS-20 or rate limiting could conceivably
 // read out of a path: each path (= each suffix, the family is suffix-closed) and each path prefixed
 // with one of A's hops, as a native coin (when it is an SDK denomination) and as a voucher.
-func candidateCoins(fam []string) []string {
+func candidateCoins(fam, ids []string) []string {
 	seen := map[string]bool{}
 	var out []string
 	add := func(d string) {
@@ -113,7 +122,7 @@ func candidateCoins(fam []string) []string {
 	}
 	for _, p := range fam {
 		strs := []string{p}
-		for _, id := range idsA {
+		for _, id := range ids {
 			strs = append(strs, port+"/"+id+"/"+p)
 		}
 		for _, s := range strs {
@@ -141,6 +150,8 @@ type world struct {
 	base   *ksim.World
 	link   *ksim.Link
 	routes []route
+	ids    []string          // identifiers chain A knows paths by
+	fam    []string          // the paths evaluated in this world
 	escrow map[string]string // escrow address (bech32) -> identifier on A
 	coins  map[string]bool
 }
@@ -174,19 +185,30 @@ func finishFromB(w *ksim.World, l *ksim.Link, chanB string) string {
 }
 
 // buildWorld opens two transfer channels between A and B. straight: A.channel-i <-> B.channel-i;
-// crossed: A.channel-0 <-> B.channel-1 and A.channel-1 <-> B.channel-0. Together the two worlds
-// realise all four (source, destination) pairs over {channel-0, channel-1}, in both directions.
-func buildWorld(c *core.C, wk *ksim.Worker, name string, crossed bool, coins []string) *world {
+// crossed: A.channel-0 <-> B.channel-1 and A.channel-1 <-> B.channel-0 (together they realise all four
+// (source, destination) pairs over {channel-0, channel-1}, in both directions); prefix: dangling channel
+// ends bump the counters of both chains so that the two channels are channel-1 and channel-10 on either
+// chain, i.e. one identifier is a proper string prefix of the other.
+func buildWorld(c *core.C, wk *ksim.Worker, name string, fam []string) *world {
 	w := wk.Root()
 	l := w.SetupClients(0, 1)
 	w.SetupConnection(l, 0)
 	var ends [2][2]string // [i] = {id on A, id on B}
-	if !crossed {
+	var want [2][2]string
+	dangling := func(n int) {
+		for k := 0; k < n; k++ {
+			ksim.MustOK("dangling channel end on A", w.Tx(0, channeltypes.NewMsgChannelOpenInit(port, transfertypes.V1, channeltypes.UNORDERED, []string{l.ConnA}, port, ksim.Signer)))
+			ksim.MustOK("dangling channel end on B", w.Tx(1, channeltypes.NewMsgChannelOpenInit(port, transfertypes.V1, channeltypes.UNORDERED, []string{l.ConnB}, port, ksim.Signer)))
+		}
+	}
+	switch name {
+	case "straight":
 		for i := 0; i < 2; i++ {
 			cp := w.SetupChannel(l, port, port, transfertypes.V1, channeltypes.UNORDERED)
 			ends[i] = [2]string{cp.ChanA, cp.ChanB}
 		}
-	} else {
+		want = [2][2]string{{"channel-0", "channel-0"}, {"channel-1", "channel-1"}}
+	case "crossed":
 		r := w.Tx(1, channeltypes.NewMsgChannelOpenInit(port, transfertypes.V1, channeltypes.UNORDERED, []string{l.ConnB}, port, ksim.Signer))
 		ksim.MustOK("chan init on B", r)
 		var ir channeltypes.MsgChannelOpenInitResponse
@@ -196,23 +218,31 @@ func buildWorld(c *core.C, wk *ksim.Worker, name string, crossed bool, coins []s
 		cp := w.SetupChannel(l, port, port, transfertypes.V1, channeltypes.UNORDERED)
 		ends[0] = [2]string{cp.ChanA, cp.ChanB}
 		ends[1] = [2]string{finishFromB(w, l, ir.ChannelId), ir.ChannelId}
+		want = [2][2]string{{"channel-0", "channel-1"}, {"channel-1", "channel-0"}}
+	case "prefix":
+		dangling(1) // channel-0 on both chains
+		cp := w.SetupChannel(l, port, port, transfertypes.V1, channeltypes.UNORDERED)
+		ends[0] = [2]string{cp.ChanA, cp.ChanB}
+		dangling(8) // channel-2 .. channel-9
+		cp = w.SetupChannel(l, port, port, transfertypes.V1, channeltypes.UNORDERED)
+		ends[1] = [2]string{cp.ChanA, cp.ChanB}
+		want = [2][2]string{{"channel-1", "channel-1"}, {"channel-10", "channel-10"}}
+	default:
+		panic("c42: unknown world " + name)
 	}
 	w.RegisterCounterparties(l)
-	wantB := [2]string{"channel-0", "channel-1"}
-	if crossed {
-		wantB = [2]string{"channel-1", "channel-0"}
-	}
-	for i := 0; i < 2; i++ {
-		if ends[i][0] != fmt.Sprintf("channel-%d", i) || ends[i][1] != wantB[i] {
-			c.Broken("world %s: transfer channel %d is %s on A / %s on B", name, i, ends[i][0], ends[i][1])
-			return nil
-		}
+	if ends != want {
+		c.Broken("world %s: transfer channels are %v, expected %v", name, ends, want)
+		return nil
 	}
 	if l.ClientA != "07-tendermint-0" || l.ClientB != "07-tendermint-0" {
 		c.Broken("world %s: unexpected client identifiers %s / %s", name, l.ClientA, l.ClientB)
 		return nil
 	}
-	wd := &world{name: name, wk: wk, link: l, escrow: map[string]string{}, coins: map[string]bool{}}
+	crossed := name != "straight"
+	idsA := []string{ends[0][0], ends[1][0], l.ClientA}
+	coins := candidateCoins(fam, idsA)
+	wd := &world{name: name, wk: wk, link: l, ids: idsA, fam: fam, escrow: map[string]string{}, coins: map[string]bool{}}
 	for i := 0; i < 2; i++ {
 		wd.routes = append(wd.routes, route{Name: "v1", A: ends[i][0], B: ends[i][1]}, route{Name: "v2-alias", V2: true, A: ends[i][0], B: ends[i][1]})
 	}
@@ -745,8 +775,8 @@ func (wd *world) runRoute(c *core.C, rt route, fam []string, st *stats) bool {
 }
 
 func run(c *core.C) {
-	fam := family(c)
 	var rk kase
+	var replayFam []string
 	if c.Replay != "" {
 		if err := c.LoadReplay(&rk); err != nil {
 			c.Broken("replay: %v", err)
@@ -758,30 +788,35 @@ func run(c *core.C) {
 			path = strings.TrimPrefix(path, port+"/"+rk.From+"/")
 		}
 		segs := strings.Split(path, "/")
-		fam = nil
 		for i := len(segs) - 1; i >= 0; i-- {
-			fam = append(fam, strings.Join(segs[i:], "/"))
+			replayFam = append(replayFam, strings.Join(segs[i:], "/"))
 		}
 	}
-	coins := candidateCoins(fam)
 	wk := ksim.NewWorker(c.T, 2)
 	var worlds []*world
-	for _, x := range []struct {
-		name    string
-		crossed bool
-	}{{"straight", false}, {"crossed", true}} {
-		wd := buildWorld(c, wk, x.name, x.crossed, coins)
+	paths, ncoins := 0, 0
+	for _, name := range []string{"straight", "crossed", "prefix"} {
+		if c.Replay != "" && name != rk.World {
+			continue
+		}
+		fam := family(c, name)
+		if c.Replay != "" {
+			fam = replayFam
+		}
+		wd := buildWorld(c, wk, name, fam)
 		if wd == nil {
 			return
 		}
 		worlds = append(worlds, wd)
+		paths += len(fam)
+		ncoins += len(wd.coins)
 	}
 	if c.Replay != "" {
 		st := &stats{exhaustive: true}
 		for _, wd := range worlds {
 			for _, rt := range wd.routes {
-				if wd.name == rk.World && rt.Name == rk.Route && (rt.A == rk.Chan || (rk.Dir == "send-voucher" && rt.A == rk.From)) {
-					wd.runRoute(c, rt, fam[len(fam)-1:], st)
+				if rt.Name == rk.Route && (rt.A == rk.Chan || (rk.Dir == "send-voucher" && rt.A == rk.From)) {
+					wd.runRoute(c, rt, wd.fam[len(wd.fam)-1:], st)
 				}
 			}
 		}
@@ -793,20 +828,20 @@ func run(c *core.C) {
 	st := &stats{exhaustive: true}
 	for _, wd := range worlds {
 		for _, rt := range wd.routes {
-			if !wd.runRoute(c, rt, fam, st) {
+			if !wd.runRoute(c, rt, wd.fam, st) {
 				return
 			}
 		}
 	}
 	c.Set("evaluations", st.evals)
 	c.Set("distinct_nontrivial", st.moved)
-	c.Set("paths", len(fam))
-	c.Set("candidate_coins", len(coins))
-	c.Set("rate_limits_per_world", len(coins)*len(idsA))
+	c.Set("paths_over_all_worlds", paths)
+	c.Set("candidate_coins_over_all_worlds", ncoins)
+	c.Set("rate_limits_over_all_worlds", ncoins*3)
 	c.Set("exhaustive", st.exhaustive)
-	c.Set("worlds", "straight: A.channel-i <-> B.channel-i; crossed: A.channel-0 <-> B.channel-1, A.channel-1 <-> B.channel-0; in both 07-tendermint-0 <-> 07-tendermint-0 with registered v2 counterparties")
-	c.Set("rule", "paths = every '/'-joined string of 1..3 segments over {uatom, transfer, channel-0, channel-1, x} (quick; plus a fixed list of 4-segment paths) or 1..4 segments over that plus {07-tendermint-0, channel-7} (thorough); for every world, route in {v1 channel, v2 alias of the channel} x A's channel in {channel-0, channel-1} (plus v2 client-to-client in the straight world) and every path: (recv) a packet naming the path arrives from the counterparty, (send-voucher) the voucher a successful receive minted is sent over every route of the same protocol, (send-native / send-path) the path is sent from A as MsgTransfer of the coin of that name (v1) or as MsgSendPacket payload (v2); non-trivial = distinct cases in which ICS-20 moved funds (bank store changed), for which the charged rate limit is compared")
-	c.Assume("chain A is provisioned so that no case fails for lack of funds: the user and every escrow account of A hold every candidate coin (each path and each path prefixed by one of A's hops, as native coin and as ibc/ voucher) and the tracked total escrow covers it; a rate limit with 100% quotas exists for every (candidate coin, identifier in {channel-0, channel-1, 07-tendermint-0})")
+	c.Set("worlds", "straight: A.channel-i <-> B.channel-i; crossed: A.channel-0 <-> B.channel-1, A.channel-1 <-> B.channel-0; prefix: A.channel-1 <-> B.channel-1, A.channel-10 <-> B.channel-10 (dangling channel ends bump the counters), paths over {uatom, transfer, channel-1, channel-10, x}; in all three 07-tendermint-0 <-> 07-tendermint-0 with registered v2 counterparties")
+	c.Set("rule", "paths = every '/'-joined string of 1..3 segments over {uatom, transfer, channel-0, channel-1, x} (quick; plus a fixed list of 4-segment paths) or 1..4 segments over that plus {07-tendermint-0, channel-7} (thorough); in the prefix world paths = 1..3 (quick; plus a fixed list of 4-segment paths) or 1..4 (thorough) segments over {uatom, transfer, channel-1, channel-10, x}; for every world, route in {v1 channel, v2 alias of the channel} x A's two channels (plus v2 client-to-client in the straight world) and every path: (recv) a packet naming the path arrives from the counterparty, (send-voucher) the voucher a successful receive minted is sent over every route of the same protocol, (send-native / send-path) the path is sent from A as MsgTransfer of the coin of that name (v1) or as MsgSendPacket payload (v2); non-trivial = distinct cases in which ICS-20 moved funds (bank store changed), for which the charged rate limit is compared")
+	c.Assume("chain A is provisioned so that no case fails for lack of funds: the user and every escrow account of A hold every candidate coin (each path and each path prefixed by one of A's hops, as native coin and as ibc/ voucher) and the tracked total escrow covers it; a rate limit with 100% quotas exists for every (candidate coin, identifier in A's two channel ids and 07-tendermint-0)")
 	c.Assume("the counterparty is arbitrary: its packets are committed through its channel keeper (v1) / packet commitment store (v2) without passing through a transfer module")
 	c.Assume("crypto/sha256 is the reference for naming voucher coins when provisioning; the verdict itself only compares two observations of the real chain (bank store difference vs rate-limit store difference)")
 }
